@@ -21,6 +21,10 @@ func run(prop string) {
 	switch prop {
 	case "SMOKE":
 		runSmoke()
+	case "C12":
+		runC12()
+	case "C13":
+		runC13()
 	default:
 		panic("W-mesh does not decide " + prop)
 	}
